@@ -36,11 +36,14 @@ ASSUMPTIONS = [
     "float-valued additive measures (Additive_Cost_Sqrt_Sat, Additive_Cost_Log_Sat) are outside the property",
 ]
 TRUSTED = ["Model/MaxWelfare.v mirrors pabutools/rules/maxwelfare.py (modelled, not verified)"]
-EXPLANATION = ("Theorems (unbounded, Props/C04.v): the brute-force oracle is the true maximum / set of optima; "
-               "primal/dual bound validity, search completeness, reconstruction, end-to-end optimality of the PD scheme; "
-               "ILP cut loop enumerates every optimum once under the solver-oracle hypothesis; the floored bound is "
-               "refuted.  Tie: the implementation's allocations are checked in Coq against the brute-force oracle "
-               "(both algorithms) and against the model (PRIMAL_DUAL).")
+EXPLANATION = ("Theorems (unbounded, Props/C04.v, all DESIGN M theorems proved): the brute-force oracle is the true "
+               "maximum / the set of all optima, each once; primal/dual bound validity, search completeness and "
+               "reconstruction (one invariant of primal_dual_branch_impl), optimality of primal_dual_branch and of the "
+               "whole PRIMAL_DUAL rule incl. the zero-cost pre-selection; under the solver-oracle hypothesis the ILP cut "
+               "loop returns exactly the optimal allocations, each once (hypothesis shown satisfiable); the pre-repair "
+               "floored bound is refuted.  Tie: the implementation's allocations are judged in Coq by the verified "
+               "brute-force oracle (both algorithms, resolute and irresolute) and compared with the model's selected "
+               "set (PRIMAL_DUAL).  ILP statements are proofs under an oracle hypothesis about CBC, not about CBC.")
 
 POOLS = [
     [0, 1, 1, 2, 2, 3],
